@@ -1,7 +1,7 @@
 (* C14 property theorems: statements only, each closed by [exact]. *)
 From Boltons Require Import Lib.Prelude Lib.C14_Text Spec.C14_Spec Model.C14_Model Gen.C14_Gen
   Check.C14_Check Proofs.C14_Table Proofs.C14_Sh Proofs.C14_Cmd Proofs.C14_Int Proofs.C14_Int2 Proofs.C14_Int3
-  Proofs.C14_Gzip.
+  Proofs.C14_Gzip Gen.C14_Src Proofs.C14_SrcEq.
 Open Scope N_scope.
 
 (* (T) obligation over the table regenerated from the source on every run:
@@ -53,6 +53,13 @@ Theorem C14_format_is_spec : forall delim rdelim L space,
   format_int_list delim rdelim L space = spec_format (sep_of delim space) rdelim L.
 Proof. exact format_int_list_spec. Qed.
 Print Assumptions C14_format_is_spec.
+
+(* (T) the definition regenerated from the CURRENT source text of format_int_list
+   (Gen/C14_Src.v, rewritten on every run) is the model the theorems are about *)
+Theorem C14_source_format_int_list : forall delim rdelim L space,
+  src_format_int_list L delim rdelim space = format_int_list delim rdelim L space.
+Proof. exact src_format_int_list_eq. Qed.
+Print Assumptions C14_source_format_int_list.
 
 (* ... which is THE canonical range string of the set of L: ascending, non-empty
    ranges, neighbouring ranges separated by at least one missing integer
